@@ -302,20 +302,26 @@ class load(DataStreamProcessor):
 
     @staticmethod
     def rename_duplicate_headers(duplicate_headers, case_sensitive=True, deduplicate_format=' (%s)'):
+        def key_of(name):
+            return name if case_sensitive else name.lower()
+
+        # names that are in use: all incoming headers, then every name that is given out
+        taken = set(key_of(header) for header in duplicate_headers)
         counter = {}
+
+        def numbered(header):
+            header_key = key_of(header)
+            while True:
+                counter[header_key] = counter.get(header_key, 0) + 1
+                candidate = ('%s' + deduplicate_format) % (header, counter[header_key])
+                if key_of(candidate) not in taken:
+                    taken.add(key_of(candidate))
+                    return candidate
+
+        header_keys = [key_of(header) for header in duplicate_headers]
         headers = []
-        header_keys = []
-        for header in duplicate_headers:
-            header_key = header
-            if not case_sensitive:
-                header_key = header_key.lower()
-            header_keys.append(header_key)
-            counter.setdefault(header_key, 0)
-            counter[header_key] += 1
-            if counter[header_key] > 1:
-                if counter[header_key] == 2:
-                    prev_index = header_keys.index(header_key) 
-                    headers[prev_index] = ('%s' + deduplicate_format) % (headers[prev_index], 1)
-                header = ('%s' + deduplicate_format) % (header, counter[header_key])
+        for header, header_key in zip(duplicate_headers, header_keys):
+            if header_keys.count(header_key) > 1:
+                header = numbered(header)
             headers.append(header)
         return headers
